@@ -11,6 +11,21 @@ import splice
 CACHE = os.environ.get('VERIF_CACHE', '/var/tmp/rce-verif-cache')
 
 
+class _CacheLock:
+    """checks may run concurrently; the cargo build cache is shared, so building and running from it is serialised"""
+    def __init__(self, name):
+        os.makedirs(CACHE, exist_ok=True)
+        self.f = open(os.path.join(CACHE, name + '.lock'), 'w')
+    def __enter__(self):
+        import fcntl
+        fcntl.flock(self.f, fcntl.LOCK_EX)
+        return self
+    def __exit__(self, *a):
+        import fcntl
+        fcntl.flock(self.f, fcntl.LOCK_UN)
+        self.f.close()
+
+
 def _run(cmd, cwd, env, timeout):
     try:
         p = subprocess.run(cmd, cwd=cwd, env=env, capture_output=True, text=True, timeout=timeout)
@@ -35,7 +50,8 @@ def run_kani(harnesses, scratch, repo, log, jobs=8, per_harness_timeout='30m', l
     for h in harnesses:
         cmd += ['--harness', h]
     res['cmd'] = ' '.join(cmd)
-    rc, out = _run(cmd, d, env, 6 * 3600)
+    with _CacheLock('kani-target'):
+        rc, out = _run(cmd, d, env, 6 * 3600)
     res['raw_tail'] = out[-3000:]
     m = re.search(r'Complete - (\d+) successfully verified harnesses, (\d+) failures, (\d+) total', out)
     if not m:
@@ -112,7 +128,8 @@ def run_native(tests, scratch, repo, log, label='native', kind='native', threads
     os.makedirs(CACHE, exist_ok=True)
     cmd = ['cargo', 'test', '--offline', modname, '--', '--test-threads', str(threads)]
     res['cmd'] = ' '.join(cmd)
-    rc, out = _run(cmd, d, env, 3600)
+    with _CacheLock('native-target'):
+        rc, out = _run(cmd, d, env, 3600)
     for t in tests:
         m = re.search(r'test \S*' + modname + r'::' + re.escape(t) + r' \.\.\. (\w+)', out)
         if not m:
